@@ -700,6 +700,16 @@ Definition cop_events (o : cop) : list event :=
   | OAwait _ | OPeek _ | OSleep | ORestore | OFinished _ => []
   end.
 
+(** [with_wait] before its repair: [sender.send(()).unwrap()] panicked when the shutdown manager had
+    already collected the acknowledgements of the pre-shutdown phase (the request was accepted before
+    the shutdown and handled after it). *)
+Definition wait_plugin_v0 : plugin_chk fx_state := fun args s =>
+  match args with
+  | [] => if fx_finished s then Panic else Ok (pr_ok_empty, s)
+  | _ :: _ => Ok (pr_error (B "no arguments were expected"), s)
+  end.
+Definition fx_plugins_chk_v0 : plugins_chk fx_state := (B "wait", wait_plugin_v0) :: fx_plugins_chk.
+
 Definition fx_lstep := lstep fx_plugins_chk fx_blocked fx_env_step fx_ack.
 Definition fx_lstep_reload := lstep fx_plugins_reload fx_blocked_reload fx_env_step fx_ack.
 
